@@ -33,6 +33,8 @@ def families(tier, seed):
     out.append(dict(name='assemblies of symbolic steppers (Moore and Mealy components)', run=sc.symbolic_assembly_check(), label='bounded'))
     out.append(dict(name='scheduler/component/enum stepper', run=sc.misc_check(), label='bounded'))
     out.append(dict(name='stepper on synthesized implementations', run=sc.stepper_on_implementations(seed, 12 if tier == 'quick' else 400), label='bounded'))
+    from contracts import optdiff as _od
+    out.append(dict(name='same results with assert statements stripped (python -O), section C19', run=_od.family('C19'), label='bounded'))
     return out
 
 
